@@ -43,6 +43,11 @@ def judge(s, r):
             # collide is refused after earlier clones are gone (the model mirrors this, so the states still agree)
             finding = "KF-C13-remove-keep-clones-partial"
         out.append(("refused-but-changed", f"{H.clean(s.op)} was refused ({s.impl_res}) but the tree changed", finding))
+    if s.impl_res in H.REFUSALS and not s.changed:
+        bad = {k: v for k, v in s.oracles.items() if v}
+        if bad:
+            k = sorted(bad)[0]
+            out.append(("corrupt-after-refusal", f"{H.clean(s.op)} was refused ({s.impl_res}); afterwards {k}: {bad[k][0]}", None))
     if s.impl_res in ("callback", "recursion", "other", "attribute", "type", "key", "index"):
         bad = {k: v for k, v in s.oracles.items() if v}
         if bad:
@@ -179,6 +184,11 @@ def readonly_campaign(ctx, out, specs):
 
 
 CORPUS = [
+    # remove(keep_children=True) refused because a NON-FIRST child collides with a sibling: nothing may have changed (parent links!)
+    dict(cfg=dict(typed=False, hook=None, trees=2), log=[
+        {"op": "w.add", "t": 0, "p": [], "a": 2}, {"op": "w.add", "t": 0, "p": [0], "a": 0}, {"op": "w.add", "t": 0, "p": [0], "a": 1},
+        {"op": "w.add", "t": 0, "p": [0], "a": 6}, {"op": "w.add", "t": 0, "p": [], "a": 1},
+        {"op": "w.remove", "t": 0, "n": [0], "keep": True, "clones": False}]),
     # KF-C13-remove-keep-clones-partial: X[a[e]], Y[a'[c], c'] ; a'.remove(keep_children=True, with_clones=True)
     dict(cfg=dict(typed=False, hook=None, trees=2), log=[
         {"op": "w.add", "t": 0, "p": [], "a": 0}, {"op": "w.add", "t": 0, "p": [0], "a": 6}, {"op": "w.add", "t": 0, "p": [0, 0], "a": 2},
